@@ -70,6 +70,12 @@ func TestC03_SelfCertifying(t *testing.T) {
 			if op2.UniqueSuffix != wantSuffix || op2.ID != op.ID {
 				t.Fatalf("C03 re-serialization changed the DID: %q vs %q\n%s", op2.ID, op.ID, sp)
 			}
+			// ... also when the spelling is exactly as long as the largest operation the protocol allows
+			exact := p
+			exact.MaxOperationSize = uint(len(sp))
+			if op3, err := newStack(exact).Parser.Parse(ns, []byte(sp)); err != nil || op3.ID != op.ID {
+				t.Fatalf("C03 re-serialized create of exactly the maximum operation size (%d bytes) does not denote the same DID: %v", len(sp), err)
+			}
 		}
 
 		// (b) single known-field modification
